@@ -141,8 +141,11 @@ def part_a(rep, statuses):
 
 
 # ---------------------------------------------------------------- part B: generated method
-SCHEMA = "type Query { a: Int! }\n"
-QUERY = "query GetA { a }\n"
+SCHEMA = "type Query { a: Int! b(data: Int, query: Int, variables: Int, response: Int): Int! }\ntype Mutation { c(Data: Int, Query: Int): Int! }\n"
+QUERY = ("query GetA { a }\n"
+         "query GetB($data: Int, $query: Int, $variables: Int, $response: Int) { a: b(data: $data, query: $query, variables: $variables, response: $response) }\n"
+         "mutation SetC($Data: Int, $Query: Int) { a: c(Data: $Data, Query: $Query) }\n")
+METHODS = [("get_a", {}), ("get_b", {"data": 41, "query": 42, "variables": 43, "response": 44}), ("set_c", {"data": 51, "query": 52})]
 CONFIGS = [
     ("async", {"async_client": True, "opentelemetry_client": False}, "none"),
     ("sync", {"async_client": False, "opentelemetry_client": False}, "none"),
@@ -163,9 +166,9 @@ def part_b_case(case):
         pkg, pdir, _ = genpkg.generate(d, SCHEMA, QUERY, options)
         mod, mods = genpkg.import_package(d, pkg)
         exc_mod = mods["exceptions"]
-        Model = mod.GetA
         is_async = clients.BUNDLED[kind][2]
-        for status in statuses:
+        for (mname, mkw), status in [(m, s_) for m in METHODS for s_ in (statuses if m[0] == "get_a" else statuses[2:5])]:
+            Model = {"get_a": mod.GetA, "get_b": mod.GetB, "set_c": mod.SetC}[mname]
             for bname, body in body_classes():
                 sent = {}
 
@@ -182,9 +185,9 @@ def part_b_case(case):
                         want = ("other", "ValidationError")
                 else:
                     want = ref
-                obs = observe(lambda: clients.call(is_async, c.get_a), exc_mod)
+                obs = observe(lambda: clients.call(is_async, getattr(c, mname), **mkw), exc_mod)
                 out["cells"] += 1
-                out["outcomes"].append((status_class(status), bname, want[0]))
+                out["outcomes"].append((status_class(status), bname, want[0], mname))
                 if want[0] == "other":
                     why = None if obs[:2] == want[:2] else f"expected pydantic ValidationError, got {obs[:2]!r}"
                 elif want[0] == "data":
@@ -194,7 +197,7 @@ def part_b_case(case):
                 if sent.get("n") != 1:
                     why = (why or "") + f" requests sent: {sent.get('n')}"
                 if why:
-                    out["violations"].append((bname, status, why, body.decode("latin1")))
+                    out["violations"].append((bname, status, f"{mname}: {why}", body.decode("latin1")))
     return out
 
 
